@@ -337,10 +337,14 @@ pub fn codec_step(w: &mut World, case: &CodecCase) {
                     Out::Err(e) => w.violate("C14", "json-wrapper-not-transparent", bk, &format!("encode-json-{what}"), "", format!("{e:?}")),
                     Out::Panic(p) => w.violate("C04", "panic", bk, &format!("encode-json-{what}"), "", p),
                 }
+                // transparent: the wrapper decodes exactly what serde_json itself decodes (documents nested
+                // deeper than serde_json's recursion limit are refused by both)
+                let generic: Option<serde_json::Value> = serde_json::from_slice(&want).ok();
                 match dec {
-                    Out::Ok(v) if v == *value => {}
-                    Out::Ok(v) => w.violate("C14", "json-wrapper-not-transparent", bk, &format!("decode-json-{what}"), "", format!("decoded {v} from the serde_json form of {value}")),
-                    Out::Err(e) => w.violate("C14", "json-wrapper-not-transparent", bk, &format!("decode-json-{what}"), "", format!("{e:?}")),
+                    Out::Ok(v) if Some(&v) == generic.as_ref() && v == *value => {}
+                    Out::Ok(v) => w.violate("C14", "json-wrapper-not-transparent", bk, &format!("decode-json-{what}"), "", format!("decoded {} from the serde_json form of {}", truncate(&v.to_string(), 80), truncate(&value.to_string(), 80))),
+                    Out::Err(_) if generic.is_none() => w.stats.bump("codec:document-refused-by-serde-json-too"),
+                    Out::Err(e) => w.violate("C14", "json-wrapper-not-transparent", bk, &format!("decode-json-{what}"), "", format!("{e:?} for a document serde_json reads: {}", truncate(&String::from_utf8_lossy(&want), 100))),
                     Out::Panic(p) => w.violate("C04", "panic", bk, &format!("decode-json-{what}"), "", p),
                 }
             }
